@@ -412,11 +412,31 @@ def chunkTimesOk (body : List Nat) (chunks : List (Nat × Nat)) : Bool :=
       okHere && firstRecords && go rest m' false
   go chunks none true
 
+/-- start positions of the white-space separated tokens of `bs` (first byte at `pos`) -/
+def tokenStarts (bs : List Nat) : List (Nat × List Nat) :=
+  let rec go (bs : List Nat) (pos : Nat) (cur : List Nat) (start : Nat) (acc : List (Nat × List Nat)) : List (Nat × List Nat) :=
+    match bs with
+    | [] => (if cur.isEmpty then acc else (start, cur.reverse) :: acc).reverse
+    | b :: r =>
+      if isWs b then go r (pos + 1) [] (pos + 1) (if cur.isEmpty then acc else (start, cur.reverse) :: acc)
+      else go r (pos + 1) (b :: cur) (if cur.isEmpty then pos else start) acc
+  go bs 0 [] 0 []
+
+/-- no timestamp is lost at a hand-over (F5b): the chunk that starts at `s` skips everything up to the first line break at or
+after `s`, its predecessor stops at the first timestamp token that starts after `s` — a timestamp token that starts strictly
+between `s` and that line break (the boundary falls into the white space in front of it) is seen by neither -/
+def noLostTime (body : List Nat) (chunks : List (Nat × Nat)) : Bool :=
+  let toks := tokenStarts body
+  (chunks.drop 1).all fun c =>
+    let s := c.1
+    let nl := s + ((body.drop s).takeWhile (· != 10)).length
+    !(toks.any fun t => s < t.1 && t.1 < nl && (match parseFirst t.2 with | .time _ => true | _ => false))
+
 def handoverSafe (body : List Nat) (threads minChunk : Nat) : Bool :=
   match some (determineChunks body.length threads minChunk) with
   | none => false
   | some chunks =>
-    chunks.length ≤ 1 || (lineDisciplined body && chunkTimesOk body chunks &&
+    chunks.length ≤ 1 || (lineDisciplined body && chunkTimesOk body chunks && noLostTime body chunks &&
       chunks.all (fun c => c.1 ≤ body.length))
 
 end Wellen.VcdBody
